@@ -72,7 +72,39 @@ theorem frame_icsRecv {s s' : St} {p b} (h : icsRecv s p b = some s') : DFrame s
       · exact (frame_icsCredit hc).trans (frame_chargeBridgingFee s1 p)
       · exact frame_icsCredit hc
 
-theorem frame_icsRefund {s s' : St} {p} (h : icsRefund s p = some s') : DFrame s s' := frame_icsCredit h
+theorem frame_fwdRefundFunds {s s' : St} {p rc} (h : fwdRefundFunds s p rc = some s') : DFrame s s' := by
+  unfold fwdRefundFunds at h
+  split at h
+  · split at h
+    · exact frame_sendCoins h
+    · split at h
+      · cases h
+      · cases h; exact frame_debit s _ _ _
+  · cases h; exact frame_credit s _ _ _
+
+theorem frame_fwdSettle {s s' : St} {p r} (h : fwdSettle s p r = some s') : DFrame s s' := by
+  unfold fwdSettle at h
+  split at h
+  · cases h
+  · rename_i s1 h1
+    split at h
+    · cases h
+    · cases h
+      refine DFrame.trans ?_ (frame_writeAck s1 _ _ _)
+      split at h1
+      · cases h1; exact DFrame.refl s
+      · exact frame_fwdRefundFunds h1
+
+theorem sendTransfer_ok' {s s' : St} {a c d amt} (h : sendTransfer s a c d amt = .ok s') : sendOpen s a c d amt = .ok s' := by
+  unfold sendTransfer at h; split at h
+  · cases h
+  · exact h
+
+theorem frame_icsRefund {s s' : St} {p} (h : icsRefund s p = some s') : DFrame s s' := by
+  unfold icsRefund at h
+  split at h
+  · exact frame_icsCredit h
+  · exact frame_fwdSettle h
 
 theorem frame_eibcOnRecv {s s' : St} {p m} (h : eibcOnRecv s p m = .ok s') : DFrame s s' := by
   unfold eibcOnRecv at h
@@ -91,6 +123,19 @@ theorem frame_eibcOnRefund {s s' : St} {p} (h : eibcOnRefund s p = .ok s') : DFr
   · split at h
     · cases h
     · cases h; exact frame_setOrder s _
+
+theorem eibcRefundHandler_ok {s s' : St} {p} (h : eibcRefundHandler s p = .ok s') : eibcOnRefund s p = .ok s' := by
+  unfold eibcRefundHandler at h
+  split at h
+  · cases h
+  · exact h
+
+theorem sendBlk_ok {s s' : St} {a c d amt} (h : sendBlk s a c d amt = .ok s') :
+    ∃ s1, sendOpen s a c d amt = .ok s1 ∧ s' = markBlk s1 c (getNextSeq s c) := by
+  unfold sendBlk at h
+  split at h
+  · rename_i s1 hs; cases h; exact ⟨s1, sendTransfer_ok' hs, rfl⟩
+  · cases h
 
 theorem frame_afterPacketStatusUpdated (s : St) (a b : Bytes) (st : Status) : DFrame s (afterPacketStatusUpdated s a b st) := by
   unfold afterPacketStatusUpdated
@@ -118,13 +163,19 @@ theorem frame_refundRelease (s : St) (p : Packet) : DFrame s (refundRelease s p)
   · rename_i s1 h; exact frame_icsRefund h
   · exact DFrame.refl s
 
+theorem frame_ackRelease (s : St) (p : Packet) : DFrame s (ackRelease s p).1 := by
+  unfold ackRelease
+  split
+  · exact DFrame.refl s
+  · exact frame_refundRelease s p
+
 theorem frame_releaseEffect (s : St) (p : Packet) : DFrame s (releaseEffect s p).1 := by
   unfold releaseEffect
   split
   · exact (frame_recvRelease s p).trans (frame_writeRecvAck _ _ _)
   · split
     · exact frame_refundRelease s p
-    · exact DFrame.refl s
+    · exact frame_ackRelease s p
   · exact frame_refundRelease s p
   · exact DFrame.refl s
 
@@ -188,6 +239,21 @@ theorem sendTransfer_ok {s s' : St} {a c d amt} (h : sendTransfer s a c d amt = 
   unfold sendTransfer at h; split at h
   · cases h
   · exact h
+
+/-- `MsgTransfer` leaves the packet store, the index, the receipts, the log and the rollapp / channel tables alone -/
+theorem frame_sendOpen {s s' : St} {a c d amt} (h : sendOpen s a c d amt = .ok s') :
+    s'.packets = s.packets ∧ s'.byAddr = s.byAddr ∧ s'.receipts = s.receipts ∧ s'.log = s.log ∧ s'.ras = s.ras ∧ s'.chans = s.chans ∧
+    s'.orders = s.orders ∧ s'.acks = s.acks := by
+  unfold sendOpen at h
+  split at h
+  · cases h
+  · split at h
+    · cases h
+    · split at h
+      · cases h
+      · cases h
+        unfold recordSent lockCoins
+        split <;> exact ⟨rfl, rfl, rfl, rfl, rfl, rfl, rfl, rfl⟩
 
 theorem frame_setChanClosed {s s' : St} {c : Nat} {b : Bool} (h : setChanClosed s c b = .ok s') : DFrame s s' := by
   unfold setChanClosed at h; split at h
